@@ -239,7 +239,7 @@ theorem parseStep_shape (s : State) :
       | reset => exact Or.inl ⟨.closed, by unfold parseStep; simp only [hh]⟩
   | ok p =>
     obtain ⟨h, rest⟩ := p
-    cases hf : framingOf h.headers with
+    cases hf : framingFor h.version h.headers with
     | error e =>
       refine Or.inr ⟨errReq (framingErrBytes h.version e), s.rest, s.nextIdx, some .closed, ?_, Or.inr rfl⟩
       unfold parseStep; simp only [hh, hf]
